@@ -238,6 +238,9 @@ class CSSNamespaceRule(cssrule.CSSRule):
                 # may raise if a different namespaceURI is set already,
                 # so must be done before anything else is set
                 self.namespaceURI = new['uri']
+                if self._namespaceURI != new['uri']:
+                    # refused (and only logged): leave the rule as it is
+                    return
                 self.atkeyword = new['keyword']
                 self._prefix = new['prefix']
                 self._setSeq(newseq)
